@@ -21,7 +21,7 @@ SPEC_START = ("result == ite(self.reference_node is None, 0, "
 observer("ICircuitOperation.duration", params=dict(self=OP), returns=REAL, reads="*",
          ensures=["not typeis(self, CircuitCompositeOperation) or result == self.duration"], props=P)
 refines("CircuitCompositeOperation.duration", "ICircuitOperation.duration", props=[])
-observer("IDurationStrategy.get_variable_duration", params=dict(self=REF("IDurationStrategy"), task=OP), returns=REAL, reads="*")
+# IDurationStrategy.get_variable_duration: observer with its (verified) refinements is declared in contracts/c03.py
 observer("ICircuitOperation.relation_link", params=dict(self=OP), returns=REF("IRelationLink"), reads=REL_FIELDS,
          ensures=[f"not isinstance(self, {c}) or result is self.relation" for c in FAMILIES], props=P)
 for c in FAMILIES:
